@@ -1225,6 +1225,40 @@ Fixpoint decode_prop_all (tags : list (option string)) (resp_code : option N) (p
       Ok (s :: l)
   end.
 
+(** Which of several propstats that carry the same property name decides is
+    not part of C15's statement (it is about raw values).  The other reasonable
+    reading: propstats with a failing status are passed over, the first
+    successful one that has the property gives the value, and the first failing
+    status is reported only when no successful propstat has it.  The
+    specification verdict accepts either reading (the value must be the one
+    decoded from the element chosen); model agreement is with [decode_prop]. *)
+Fixpoint select_propstat_alt (ps : list (N * list raw)) (n : name) (failed : option N) : res raw :=
+  match ps with
+  | [] => Err (match failed with Some c => c | None => 404%N end)
+  | (code, l) :: r =>
+      match prop_get l n with
+      | None => select_propstat_alt r n failed
+      | Some v =>
+          if status_err_nil code then Ok v
+          else select_propstat_alt r n (match failed with None => Some code | f => f end)
+      end
+  end.
+
+Definition decode_prop_alt (tag : option string) (resp_code : option N) (ps : list (N * list raw)) : res string :=
+  do n <- value_xml_name tag;
+  if resp_err_nil resp_code then (do v <- select_propstat_alt ps n None; decode_id v)
+  else Err (match resp_code with Some c => c | None => 500%N end).
+
+Fixpoint decode_prop_all_alt (tags : list (option string)) (resp_code : option N) (ps : list (N * list raw))
+  : res (list string) :=
+  match tags with
+  | [] => Ok []
+  | t :: r =>
+      do s <- decode_prop_alt t resp_code ps;
+      do l <- decode_prop_all_alt r resp_code ps;
+      Ok (s :: l)
+  end.
+
 (** Observation: decoded (with the id), error with IsNotFound, other error, panic. *)
 Inductive prop_obs : Type := PSel (id : string) | PNotFound | POther | PPanic.
 
